@@ -66,3 +66,10 @@ pub use linked::LinkedHashMap;
 /// S-enr
 #[path = "enr_mirror.rs"]
 pub mod enr_mirror;
+
+#[path = "smalllist.rs"]
+pub mod smalllist;
+
+/// S-hash (std::collections::HashMap, fnv::FnvHashMap)
+#[path = "hashmap.rs"]
+pub mod hashmap;
